@@ -71,6 +71,10 @@ AlphaSub2 == AlphaOf([Subscription |-> {"ev"}, T |-> {"s", "o"}])
 ArgOptsSub == [ f |-> {<<>>}, g |-> {<<>>}, ev |-> {<<>>, <<ArgV("a", Lit("var", "m"))>>, <<ArgV("b", Lit("str", "q")), ArgV("a", Lit("int", 1))>>} ]
 EvKinds == {[o |-> "raise"], [o |-> "null"], [o |-> "exc"]}
 EvKinds2 == {[o |-> "raise"], [o |-> "null"]}
+AlphaAll == AlphaOf([Query |-> {"o", "on", "lo", "lnn", "ll", "p", "lp", "u", "lu", "s", "sn", "i", "e", "le", "ls", "f", "g", "__typename"},
+                     T |-> {"s", "sn", "i", "d", "o", "lo", "p", "e", "f", "__typename"}, P |-> {"s", "o", "p", "__typename"},
+                     A |-> {"s", "a", "an", "p"}, B |-> {"s", "b", "d"}, C |-> {"s", "c"}, U |-> {"__typename"},
+                     Mutation |-> {"m1", "m2", "m3", "ml"}])
 AllFieldNames == UNION {DOMAIN TypesExec[tn].fields : tn \in DOMAIN TypesExec}
 SomeFieldNames == {"o", "sn", "m2", "m3", "lnn"}
 AlphaMut == AlphaOf([Mutation |-> {"m1", "m3", "ml"}, T |-> {"s", "o"}])
@@ -136,5 +140,5 @@ Emit == phase = "done" =>
   LET b == BigStep(Ctx) IN
   PrintT(ToJson([kind |-> "case", nodes |-> nodes, op |-> pick.op,
                  given |-> PairsOf(pick.given), overlay |-> PairsOf(pick.overlay),
-                 data |-> b.data, errs |-> b.errs, nulls |-> b.nulls, calls |-> b.calls]))
+                 cvars |-> PairsOf(Ctx.vars), data |-> b.data, errs |-> b.errs, nulls |-> b.nulls, calls |-> b.calls]))
 =============================================================================
